@@ -6,8 +6,9 @@ import ast
 from vlib.core import AnalysisError, Report
 from vlib.flow import enclosing_tries, parent_map
 from vlib.grammar import EMPTY, GrammarModel
+from vlib.match import X, calls, closure, deref, has_call, nodes
 from vlib.nodemodel import NodeModel, snakelize
-from vlib.srcindex import ClassInfo, FuncInfo, SourceIndex, attr_chain, unparse, walk_no_nested
+from vlib.srcindex import ClassInfo, FuncInfo, SourceIndex, attr_chain, const_str, unparse, walk_no_nested
 from vlib.typer import Typer
 
 EXPLANATION = (
@@ -293,8 +294,8 @@ def rule_d(rep: Report, idx: SourceIndex, nm: NodeModel) -> None:
 	order = [(n.lineno, 'emit') for n in walk_no_nested(ra.node) if isinstance(n, ast.Call) and unparse(n.func).endswith('__emit')] + [(n.lineno, 'append') for f, n in appends if f is ra]
 	r.check([k for _, k in sorted(order)] == ['emit', 'append'], 'emit-before-append', ra.where, f'__run_action must call __emit (which pops the children\'s results) before appending its own result; order is {sorted(order)}')
 	em = meth['__emit']
-	calls = [(n.lineno, 'make_event' if unparse(n.func).endswith('__make_event') else 'emit') for n in walk_no_nested(em.node) if isinstance(n, ast.Call) and (unparse(n.func).endswith('__make_event') or unparse(n.func).endswith('emitter.emit'))]
-	r.check([k for _, k in sorted(calls)] == ['make_event', 'emit'], 'event-before-handler', em.where, f'__emit must build the event (pop) before invoking the handler: {sorted(calls)}')
+	ecalls = [(n.lineno, 'make_event' if unparse(n.func).endswith('__make_event') else 'emit') for n in walk_no_nested(em.node) if isinstance(n, ast.Call) and (unparse(n.func).endswith('__make_event') or unparse(n.func).endswith('emitter.emit'))]
+	r.check([k for _, k in sorted(ecalls)] == ['make_event', 'emit'], 'event-before-handler', em.where, f'__emit must build the event (pop) before invoking the handler: {sorted(ecalls)}')
 	ex = meth['exec']
 	seq = []
 	for n in walk_no_nested(ex.node):
@@ -313,30 +314,104 @@ def rule_d(rep: Report, idx: SourceIndex, nm: NodeModel) -> None:
 		r.note('exec pops its stack without try/finally: a handler that catches an exception raised by a nested exec on the same Procedure would leave an extra stack (no such handler found today; not armed)')
 	res = meth['__result']
 	r.check(any(isinstance(n, ast.Assert) and 'len(self.__stack) == 1' in unparse(n) for n in ast.walk(res.node)), 'result-size-one', res.where, '__result no longer asserts that exactly one result is left')
-	# pop order
+	# pop order (matched over __make_event and the private helpers it calls, on alias-expanded bodies)
 	me = meth['__make_event']
-	src = unparse(me.node)
-	loop = [n for n in walk_no_nested(me.node) if isinstance(n, ast.For)]
-	rev_keys = 'reversed(node.prop_keys())' in src
-	list_branch = 'list(reversed([self.__stack_pop() for _ in range(counts)]))' in src and 'counts = len(getattr(node, prop_key))' in src
-	if loop and rev_keys and list_branch:
-		r.ok('pop-order', me.where)
-	elif not loop:
-		r.undecided('pop-order', me.where, '__make_event no longer loops over the property keys; the pop-order rule must be re-derived')
+	cl = closure(me)
+	iters = [deref(fn, n.iter) for fn in cl for n in nodes(fn, (ast.For, ast.comprehension))]
+	key_iters = [it for it in iters if has_call(it, 'prop_keys')]
+	if not key_iters:
+		r.skip('pop-order:keys', me.where, '__make_event no longer iterates node.prop_keys()')
 	else:
-		r.violate('pop-order', me.where, f'__make_event must pop in reversed(node.prop_keys()) order and re-reverse each list segment of len(getattr(node, key)) results (reversed keys: {rev_keys}, list segment re-reversed: {list_branch})', src[:200])
+		r.check(all(_reversing(it) for it in key_iters), 'pop-order:keys', me.where, f'__make_event must pop the properties in reversed(node.prop_keys()) order (results are taken from the end of the stack): iterates `{unparse(key_iters[0])}`', unparse(key_iters[0]))
+	segs = []
+	for fn in cl:
+		pm = parent_map(fn)
+		for n in nodes(fn, ast.ListComp):
+			if has_call(n.elt, '__stack_pop') and len(n.generators) == 1 and has_call(n.generators[0].iter, 'range'):
+				segs.append((fn, pm, n))
+	if not segs:
+		r.skip('pop-order:segment', me.where, 'no `[pop() for _ in range(n)]` list segment in __make_event or its helpers')
+	for fn, pm, n in segs:
+		r.check(_re_reversed(fn, pm, n), 'pop-order:segment', me.where, f'a list property takes len(list) results popped from the end of the stack; the segment `{unparse(n)}` must be reversed again to be in child order', unparse(n))
+		cnt = n.generators[0].iter.args[0] if n.generators[0].iter.args else None
+	lens = [c for c in calls(cl, 'len') if c.args and isinstance(c.args[0], ast.Call) and unparse(c.args[0].func) == 'getattr']
+	if segs:
+		r.check(bool(lens), 'pop-order:count', me.where, 'the number of results popped for a list property must be len(getattr(node, key)) — the same list the flattening walked')
 	# flatten side (node.py): procedural() = [*child.procedural(), child] per child in prop order, and the event is popped in the reverse of that order
 	nd = nm.node_cls
-	pe = nd.method('__prop_expand')
-	po = nd.method('__prop_of_nodes')
 	pr = nd.method('procedural')
-	ok = pe is not None and po is not None and pr is not None and 'for key in self.prop_keys()' in unparse(po.node) and 'isinstance(node_or_list, list)' in unparse(pe.node) and '[*node.procedural(), node] for node in under' in unparse(pr.node)
-	if ok:
-		r.ok('flatten-order', pr.where)
+	if pr is None:
+		raise AnalysisError('Node.procedural vanished')
+	pcl = closure(pr)
+	disp = []
+	for n in nodes(pcl, (ast.List, ast.Tuple)):
+		if len(n.elts) == 2:
+			for a, b, tag in ((n.elts[0], n.elts[1], 'post'), (n.elts[1], n.elts[0], 'pre')):
+				if isinstance(a, ast.Starred) and isinstance(a.value, ast.Call) and unparse(a.value.func).endswith('.procedural') and isinstance(b, ast.Name) and unparse(a.value.func) == b.id + '.procedural':
+					disp.append((n, tag))
+	if not disp:
+		r.skip('flatten-order:post-order', pr.where, 'no `[*child.procedural(), child]` display in Node.procedural')
+	for n, tag in disp:
+		r.check(tag == 'post', 'flatten-order:post-order', pr.where, f'Node.procedural must list a child after its own descendants (`{unparse(n)}`): Procedure pops the children\'s results when the parent is reached', unparse(n))
+	piters = [it for it in (deref(fn, n.iter) for fn in pcl for n in nodes(fn, (ast.For, ast.comprehension))) if has_call(it, 'prop_keys')]
+	if not piters:
+		r.skip('flatten-order:keys', pr.where, 'Node.procedural (and helpers) no longer iterate self.prop_keys()')
+	for it in piters:
+		r.check(isinstance(it, ast.Call) and unparse(it.func).endswith('prop_keys'), 'flatten-order:keys', pr.where, f'the flattening must walk self.prop_keys() in definition order (it iterates `{unparse(it)}`)', unparse(it))
+	pe_calls = calls(pcl[0], '__prop_expand')
+	ue_calls = calls(pcl[0], '_under_expand')
+	if pe_calls and ue_calls:
+		first = min((c.lineno, c.col_offset) for c in pe_calls) < min((c.lineno, c.col_offset) for c in ue_calls)
+		r.check(first, 'flatten-order:props-first', pr.where, 'Node.procedural must prefer the expandable properties over the raw children')
 	else:
-		r.undecided('flatten-order', nd.where, 'Node.procedural/__prop_expand/__prop_of_nodes changed shape; the flatten-order rule must be re-derived')
+		r.skip('flatten-order:props-first', pr.where, 'Node.procedural no longer chooses between __prop_expand and _under_expand')
 	il = meth['__is_prop_list_by']
-	r.check("fget.__annotations__['return']" in unparse(il.node) and '__origin__ is list' in unparse(il.node), 'listness-by-annotation', il.where, '__is_prop_list_by no longer reads fget.__annotations__[\'return\'].__origin__ — rule C09/listness-agreement models exactly that')
+	ilx = closure(il)
+	reads_ret = any(isinstance(n, ast.Subscript) and const_str(n.slice) == 'return' and unparse(n.value).endswith('__annotations__') for n in nodes(ilx, ast.Subscript)) or has_call(ilx, 'get_type_hints')
+	origin = any((isinstance(n, ast.Attribute) and n.attr == '__origin__') or const_str(n) == '__origin__' for n in nodes(ilx)) or has_call(ilx, 'get_origin')
+	is_list = any(isinstance(n, ast.Compare) and len(n.ops) == 1 and isinstance(n.ops[0], (ast.Is, ast.Eq)) and 'list' in (unparse(n.comparators[0]), unparse(n.left)) for n in nodes(ilx, ast.Compare))
+	if reads_ret and origin and is_list:
+		r.ok('listness-by-annotation', il.where)
+	else:
+		r.skip('listness-by-annotation', il.where, f'__is_prop_list_by no longer decides by the origin of the return annotation of the property getter (return annotation read: {reads_ret}, origin: {origin}, compared with list: {is_list}); rule C09/listness-agreement models that')
+
+
+def _reversing(it: ast.AST) -> bool:
+	"""`reversed(x)` or `x[::-1]`"""
+	if isinstance(it, ast.Call) and unparse(it.func) == 'reversed':
+		return not _reversing(it.args[0]) if it.args else False
+	if isinstance(it, ast.Subscript) and unparse(it.slice) == '::-1':
+		return not _reversing(it.value)
+	return False
+
+
+def _re_reversed(fn: ast.AST, pm: dict, comp: ast.AST) -> bool:
+	"""the list built by `comp` is reversed before it is used: wrapped in reversed()/[::-1], or bound to a name that is .reverse()d / reversed()"""
+	cur = comp
+	flips = 0
+	while id(cur) in pm:
+		par = pm[id(cur)]
+		if isinstance(par, ast.Call) and unparse(par.func) == 'reversed' and par.args and par.args[0] is cur:
+			flips += 1
+		elif isinstance(par, ast.Subscript) and par.value is cur and unparse(par.slice) == '::-1':
+			flips += 1
+		elif isinstance(par, ast.Call) and unparse(par.func) in ('list', 'tuple') and par.args and par.args[0] is cur:
+			pass
+		elif isinstance(par, (ast.Assign, ast.AnnAssign)) and par.value is cur:
+			tgt = par.targets[0] if isinstance(par, ast.Assign) else par.target
+			if isinstance(tgt, ast.Name):
+				for n in ast.walk(fn):
+					if isinstance(n, ast.Call) and unparse(n.func) == f'{tgt.id}.reverse' and n.lineno > par.lineno:
+						flips += 1
+					elif isinstance(n, ast.Call) and unparse(n.func) == 'reversed' and n.args and unparse(n.args[0]) == tgt.id and n.lineno > par.lineno:
+						flips += 1
+					elif isinstance(n, ast.Subscript) and unparse(n.value) == tgt.id and unparse(n.slice) == '::-1' and n.lineno > par.lineno:
+						flips += 1
+			break
+		else:
+			break
+		cur = par
+	return flips % 2 == 1
 
 
 def _filtered(f: FuncInfo) -> bool:
@@ -353,9 +428,9 @@ def rule_e(rep: Report, idx: SourceIndex, nm: NodeModel) -> None:
 	typer = Typer(idx, [m.relpath for m in nm.def_mods] + ['rogw/tranp/syntax/node/node.py'])
 	t2c = nm.tag_to_classes()
 	proc = nm.node_cls.method('procedural')
-	if proc is None or 'self.__prop_expand() or self._under_expand()' not in unparse(proc.node):
-		r.note('Node.procedural no longer uses `__prop_expand() or _under_expand()`; rule is moot')
-		r.ok('procedural-shape', nm.node_cls.where)
+	if proc is None or not (has_call(X(proc), '__prop_expand') and has_call(X(proc), '_under_expand')):
+		r.skip('procedural-shape', nm.node_cls.where, 'Node.procedural no longer falls back from __prop_expand() to _under_expand(); rule is moot')
+		r.floor = 1
 		return
 
 	def classes_for(tags) -> list[ClassInfo]:
